@@ -633,6 +633,8 @@ class Ev:
             return BoundLib("numpy.conj", v)
         if isinstance(v, ArrV) and name == "reshape":
             return BoundLib("numpy.reshape", v)
+        if isinstance(v, ArrV) and name == "swapaxes":
+            return BoundLib("numpy.swapaxes", v)
         if isinstance(v, ArrV) and name in ("real", "imag"):
             return LIB["numpy." + name](self, [v], {}, node, mod)
         if isinstance(v, ArrV) and name == "setflags":
@@ -1231,7 +1233,7 @@ class Ev:
                 return out
         for u, v, flipped in ((a, b, False), (b, a, True)):
             # a small array of expressions compared with a number: one condition per cell
-            if isinstance(u, ArrV) and is_sym(v) and v.is_number and isinstance(op, (ast.Lt, ast.LtE, ast.Gt, ast.GtE)) and u.shape \
+            if isinstance(u, ArrV) and is_sym(v) and v.is_number and isinstance(op, (ast.Lt, ast.LtE, ast.Gt, ast.GtE, ast.Eq, ast.NotEq)) and u.shape \
                     and all(is_sym(c) for c in list(u.cells.values()) + [u.fill]):
                 out = ArrV(u.batch, u.shape, None, batch_last=u.batch_last)
                 for kk in itertools.product(*[range(d_) for d_ in u.shape]):
@@ -4225,6 +4227,26 @@ def lib_opaque_reduce(name):
     return f
 
 
+def _zero_guard(cond, x, y):
+    """numpy.where(u != 0, u, 0) and numpy.where(u == 0, 0, u): u itself, whatever its value"""
+    if not (isinstance(cond, CondV) and cond.op in ("!=", "==") and is_sym(x) and is_sym(y)):
+        return None
+    u, c = (cond.lhs, cond.rhs) if is_sym(cond.rhs) and sp.sympify(cond.rhs).is_number else (cond.rhs, cond.lhs)
+    if not (is_sym(u) and is_sym(c) and sp.sympify(c) == 0):
+        return None
+    keep, other = (x, y) if cond.op == "!=" else (y, x)
+    if sp.sympify(keep) == sp.sympify(u) and sp.sympify(other) == 0:
+        return u
+    return None
+
+
+def _same_branches(cond, x, y):
+    """numpy.where(c, v, v): v"""
+    if is_sym(x) and is_sym(y) and not isinstance(x, bool) and sp.sympify(x) == sp.sympify(y):
+        return x
+    return None
+
+
 def _series_guard(cond, x, y):
     """numpy.where(u < c, approximation, exact) (or `u > c` with the branches swapped) for a small positive constant c: when the first
     neglected term of the expansion of `exact` around u = 0, at u = c, is below the unit round-off relative to the value there, the
@@ -4266,6 +4288,10 @@ def lib_where3(ev, a, k, n, mod):
         return x if cond else y
     if isinstance(cond, CondV) and _series_guard(cond, x, y) is not None:
         return _series_guard(cond, x, y)
+    if isinstance(cond, CondV) and _zero_guard(cond, x, y) is not None:
+        return _zero_guard(cond, x, y)
+    if isinstance(cond, (CondV, TolCond)) and _same_branches(cond, x, y) is not None:
+        return x
     if isinstance(cond, CondV):
         # an exact `== 0` guard on the value that is returned otherwise is the identity wherever that value is non-zero
         if cond.op == "==" and is_sym(cond.rhs) and cond.rhs == 0 and is_sym(cond.lhs) and as_sym(y) == cond.lhs:
@@ -4298,6 +4324,10 @@ def lib_where3(ev, a, k, n, mod):
                 out.cells[key] = cell(y, key)
             elif isinstance(c, CondV):
                 g = _series_guard(c, cell(x, key), cell(y, key))
+                if g is None:
+                    g = _zero_guard(c, cell(x, key), cell(y, key))
+                if g is None:
+                    g = _same_branches(c, cell(x, key), cell(y, key))
                 out.cells[key] = g if g is not None else sp.Function("WHERE")(sp.Symbol("cond[" + c.text + "]"), cell(x, key), cell(y, key))
             else:
                 out.cells[key] = sp.Function("WHERE")(c, cell(x, key), cell(y, key))
@@ -4451,11 +4481,33 @@ lib_clip.kw = {"a_min", "a_max", "min", "max"}
 
 
 def lib_minmax2(name):
-    def f(ev, a, k, n, mod):
-        x, y = as_sym(a[0]), as_sym(a[1])
+    def one(x, y):
+        x, y = as_sym(x), as_sym(y)
         if x.is_number and y.is_number:
             return (sp.Max if name == "MAXIMUM" else sp.Min)(x, y)
+        if x == y:
+            return x
         return sp.Function(name)(x, y)
+
+    def f(ev, a, k, n, mod):
+        if isinstance(a[0], ArrV) or isinstance(a[1], ArrV):
+            # elementwise, with numpy's broadcasting on the constant axes
+            shp = lambda v: v.shape if isinstance(v, ArrV) else ()
+            sa, sb = shp(a[0]), shp(a[1])
+            nd = max(len(sa), len(sb))
+            pa, pb = (1,) * (nd - len(sa)) + tuple(sa), (1,) * (nd - len(sb)) + tuple(sb)
+            if any(x_ != y_ and 1 not in (x_, y_) for x_, y_ in zip(pa, pb)):
+                raise RaisedV("ValueError", f"{mod.rel}:{getattr(n, 'lineno', 0)}" if mod else "")
+            out = ArrV(max(v.batch if isinstance(v, ArrV) else 0 for v in a[:2]), [max(x_, y_) for x_, y_ in zip(pa, pb)])
+
+            def get(v, pv, key):
+                if not isinstance(v, ArrV):
+                    return v
+                return v.get(tuple(0 if d == 1 else i for d, i in zip(pv, key))[nd - len(v.shape):])
+            for key in itertools.product(*[range(d) for d in out.shape]):
+                out.cells[key] = one(get(a[0], pa, key), get(a[1], pb, key))
+            return out
+        return one(a[0], a[1])
     return f
 
 
@@ -4837,6 +4889,27 @@ def lib_const_method(ev, a, k, n, mod):
 
 lib_const_method.kw = {"axis"}
 LIB["const_method"] = lib_const_method
+def lib_swapaxes(ev, a, k, n, mod):
+    x = a[0]
+    a1, a2 = _const_int(a[1] if len(a) > 1 else k.get("axis1")), _const_int(a[2] if len(a) > 2 else k.get("axis2"))
+    if not isinstance(x, ArrV) or x.batch_last:
+        raise ev.err("swapaxes of a value that is not a small array with leading grid axes", n, mod)
+    nd = x.batch + len(x.shape)
+    c1, c2 = a1 % nd - x.batch, a2 % nd - x.batch
+    if c1 < 0 or c2 < 0:
+        raise ev.err("swapaxes of a grid axis", n, mod)
+    shape = list(x.shape)
+    shape[c1], shape[c2] = shape[c2], shape[c1]
+    out = ArrV(x.batch, shape, x.fill)
+    for key, v_ in x.cells.items():
+        kk = list(key)
+        kk[c1], kk[c2] = kk[c2], kk[c1]
+        out.cells[tuple(kk)] = v_
+    return out
+
+
+lib_swapaxes.kw = {"axis1", "axis2"}
+LIB.setdefault("numpy.swapaxes", lib_swapaxes)
 LIB.setdefault("numpy.absolute", lib_abs)
 LIB.setdefault("numpy.fabs", lib_abs)
 LIB.setdefault("numpy.diag", lib_diag)
